@@ -332,13 +332,21 @@ def model_bytes(model, s, maxlen=None):
 
 
 def parallel_map(C, worker, jobs, nproc=None):
-    """run worker(sub_descriptor, job) in separate processes (spawn), merge their exported results into C"""
+    """run worker(sub_descriptor, job) in separate processes (spawn), merge their exported results into C.
+    `worker` may also be a list of (worker, job) pairs to mix several worker functions in one pool."""
     import multiprocessing as mp
     nproc = nproc or int(os.environ.get('VERIF_JOBS', '14'))
     ctx = mp.get_context('spawn')
     sd = C.sub()
-    with ctx.Pool(min(nproc, max(1, len(jobs)))) as pool:
-        results = [pool.apply_async(_run_worker, (worker.__module__, worker.__name__, sd, j)) for j in jobs]
+    if isinstance(worker, list):
+        pairs = worker
+        jobs = [j for _, j in pairs]
+    else:
+        pairs = [(worker, j) for j in jobs]
+    if not pairs:
+        return
+    with ctx.Pool(min(nproc, max(1, len(pairs)))) as pool:
+        results = [pool.apply_async(_run_worker, (w.__module__, w.__name__, sd, j)) for w, j in pairs]
         for j, r in zip(jobs, results):
             try:
                 d = r.get()
